@@ -323,18 +323,41 @@ Proof.
   eexists. rewrite <- !app_assoc. cbn [app]. reflexivity.
 Qed.
 
+(* Scanner.atEnd on the two shapes a stream of written records takes *)
+Ltac stepz := repeat (cbn; try change (Pos.to_nat 1) with 1%nat;
+  repeat match goal with
+  | |- context [?o + 1 - ?o] => replace (o + 1 - o) with 1 by lia
+  | |- context [?o + 0 - ?o] => replace (o + 0 - o) with 0 by lia
+  | |- context [?o - ?o] => replace (o - o) with 0 by lia
+  | |- context [?o + 0] => replace (o + 0) with o by lia
+  end).
+Lemma at_end_nil o e a k : exists s', at_end (mkst [] o e a k) = (Ok true, s').
+Proof.
+  unfold at_end, pSpaces, pEnd, next, trail, bind, try, push, pop, request, buffer, advance_while, advance, ret, fail.
+  stepz. destruct k; stepz; eexists; reflexivity.
+Qed.
+Lemma at_end_gt t o e a k : exists o' e', at_end (mkst (62 :: t) o e a k) = (Ok false, mkst (62 :: t) o' e' a k).
+Proof.
+  unfold at_end, pSpaces, pEnd, next, trail, bind, try, push, pop, request, buffer, advance_while, advance, ret, fail.
+  stepz. destruct k; stepz; do 2 eexists; reflexivity.
+Qed.
+
 Lemma scan_stream recs : forall acc o e a k fuel,
   Forall rec_ok recs -> (length recs < fuel)%nat ->
   exists s', scan_loop fuel fasta_parser acc (mkst (concat (map fmt recs)) o e a k) =
              (Ok (rev acc ++ recs, true), s').
 Proof.
   induction recs as [|r rs IH]; intros acc o e a k fuel Hok Hf; (destruct fuel as [|f]; [lia|]); cbn [scan_loop].
-  - cbn [map concat]. destruct (fasta_parser_eof o e a k) as [s' Hs].
-    rewrite (bind_ok _ _ _ (None, EEof) _ (try_err _ _ _ _ Hs)).
+  - cbn [map concat]. destruct (at_end_nil o e a k) as [s' Hs].
+    rewrite (bind_ok _ _ _ true _ Hs).
     eexists. unfold ret. now rewrite app_nil_r.
   - inversion Hok as [|? ? Hr Hrs]; subst. cbn [map concat].
     destruct r as [d p]. unfold fmt at 1. cbn [fst snd].
-    destruct (fasta_record d p (concat (map fmt rs)) o e a k Hr (stream_stops rs)) as [o' [e' HR]].
+    assert (HA : exists o1 e1, at_end (mkst (fasta_format d p ++ concat (map fmt rs)) o e a k) =
+                 (Ok false, mkst (fasta_format d p ++ concat (map fmt rs)) o1 e1 a k)).
+    { unfold fasta_format. rewrite <- !app_assoc. cbn [app]. apply at_end_gt. }
+    destruct HA as [o1 [e1 HA]]. rewrite (bind_ok _ _ _ false _ HA).
+    destruct (fasta_record d p (concat (map fmt rs)) o1 e1 a k Hr (stream_stops rs)) as [o' [e' HR]].
     rewrite (bind_ok _ _ _ (Some (d, p), EOther) _ (try_ok _ _ _ _ HR)).
     destruct (IH ((d, p) :: acc) o' e' (a + zlen (fasta_format d p)) k f Hrs ltac:(cbn [length] in Hf; lia)) as [s' Hs'].
     exists s'. rewrite Hs'. cbn [rev]. now rewrite <- app_assoc.
